@@ -71,14 +71,14 @@ def plan_for(pid, tier):
     common = dict(tags=("verif",), life_cfg="LifeQ.cfg" if q else "Life.cfg", walks=250 if q else 6000,
                   life_timeout=120 if q else 1500)
     P = {
-        "C01": [("rich", 16 if q else 150, 5), ("mergey", 6 if q else 40, 4), ("lean", 2 if q else 8, 2), ("leanmulti", 1 if q else 3, 0)],
-        "C02": [("stored", 16 if q else 150, 5), ("mergey", 6 if q else 40, 4), ("lean", 1 if q else 4, 2)],
-        "C03": [("rich", 20 if q else 200, 6), ("mergey", 10 if q else 100, 6), ("lean", 2 if q else 10, 3)],
-        "C04": [("rich", 12 if q else 100, 6), ("stored", 6 if q else 50, 5), ("mergey", 8 if q else 50, 6), ("lean", 1 if q else 4, 3), ("sweep", 1 if q else 3, 0)],
-        "C05": [("rich", 10 if q else 120, 9), ("stored", 6 if q else 50, 8), ("mergey", 20 if q else 200, 9), ("leanmerge", 1 if q else 5, 0)],
-        "C06": [("rich", 8 if q else 120, 10), ("mergey", 24 if q else 300, 10), ("leancross", 1 if q else 6, 0), ("leanmerge", 0 if q else 8, 0), ("wide", 1 if q else 5, 6)],
+        "C01": [("rich", 16 if q else 150, 5), ("mergey", 6 if q else 40, 4), ("lean", 2 if q else 8, 2), ("leanmulti", 1 if q else 3, 0), ("bounds", 1 if q else 4, 0)],
+        "C02": [("stored", 16 if q else 150, 5), ("mergey", 6 if q else 40, 4), ("lean", 1 if q else 4, 2), ("bounds", 1 if q else 4, 0)],
+        "C03": [("rich", 20 if q else 200, 6), ("mergey", 10 if q else 100, 6), ("lean", 2 if q else 10, 3), ("bounds", 1 if q else 4, 0)],
+        "C04": [("rich", 12 if q else 100, 6), ("stored", 6 if q else 50, 5), ("mergey", 8 if q else 50, 6), ("lean", 1 if q else 4, 3), ("sweep", 1 if q else 3, 0), ("bounds", 1 if q else 4, 0)],
+        "C05": [("rich", 10 if q else 120, 9), ("stored", 6 if q else 50, 8), ("mergey", 20 if q else 200, 9), ("leanmerge", 1 if q else 5, 0), ("bounds", 1 if q else 4, 0)],
+        "C06": [("rich", 8 if q else 120, 10), ("mergey", 24 if q else 300, 10), ("leancross", 1 if q else 6, 0), ("leanmerge", 0 if q else 8, 0), ("wide", 1 if q else 5, 6), ("bounds", 1 if q else 4, 0)],
     }
-    P["C07"] = [("rich", 16 if q else 150, 6), ("mergey", 10 if q else 100, 6), ("lean", 1 if q else 6, 3), ("wide", 1 if q else 6, 4)]
+    P["C07"] = [("rich", 16 if q else 150, 6), ("mergey", 10 if q else 100, 6), ("lean", 1 if q else 6, 3), ("wide", 1 if q else 6, 4), ("bounds", 1 if q else 4, 0)]
     P["C11"] = [("readstress", 3 if q else 30, 4 if q else 6, "race")]
     P["C12"] = [("syn", 30 if q else 300, 5), ("rich", 4 if q else 30, 4)]
     P["C13"] = [("syn", 40 if q else 400, 10)]
@@ -91,7 +91,7 @@ def plan_for(pid, tier):
     P["C19"] = [("engfail", 4 if q else 12, 0)]
     if pid == "C19":
         common.update(life_cfg="LifeVecQ.cfg", tags=("verif", "vectors"), attr_all=True, walks=40)
-    P["C09"] = [("mergey", 8 if q else 120, 7), ("syn", 6 if q else 80, 6), ("rich", 4 if q else 60, 5), ("wide", 1 if q else 6, 5), ("leancross", 1 if q else 2, 0), ("sweep", 1 if q else 2, 0)]
+    P["C09"] = [("mergey", 8 if q else 120, 7), ("syn", 6 if q else 80, 6), ("rich", 4 if q else 60, 5), ("wide", 1 if q else 6, 5), ("leancross", 1 if q else 2, 0), ("sweep", 1 if q else 2, 0), ("bounds", 1 if q else 4, 0)]
     if pid == "C09":
         common.update(layout=True, maxtlc=2000 if q else 30000, life_cfg="LifeSynQ.cfg" if q else "LifeSyn.cfg", walks=120 if q else 3000)
     P["C14"] = [("vec", 24 if q else 250, 5)]
@@ -383,7 +383,7 @@ def _run_life_check(pid, tier, seed, replay, pre, state):
                 zxr = zxr or build_harness(plan["tags"], race=True)
                 exe = zxr
             pargs = margs
-            if prof in ("wide", "leancross") and margs:
+            if prof in ("wide", "leancross", "bounds") and margs:
                 pargs = ["-maxtlc", "400000" if prof == "leancross" else "60000"]   # the point of these files is their byte layout (field ids above 127)
             invocations.append((exe, ["life", "-profile", prof, "-n", str(n), "-steps", str(steps), "-seed", str(seed * 1000 + k)] + pargs))
             log("T: %s " % prof + harness(exe, ["life", "-profile", prof, "-n", str(n), "-steps", str(steps), "-seed", str(seed * 1000 + k),
